@@ -1,2 +1,8 @@
 #!/bin/sh
-cd "$(dirname "$0")" && python3 tools/gen_tables.py && cd lean && lake build
+# Offline build of the framework after a fresh restore: regenerate the data files from /repo, build the Lean library
+# (all Props, Proofs, Model, Spec), the model driver, and pre-build the harness flavours the quick checks use.
+set -e
+cd "$(dirname "$0")"
+python3 tools/gen_tables.py
+(cd lean && lake build && lake build driver)
+python3 tools/prebuild.py
